@@ -1,6 +1,6 @@
 """Adapters for debcon.py and the email fragment."""
 import email
-from harness.common import call
+from harness.common import call, Abandon
 from debian_inspector import debcon
 
 
@@ -25,7 +25,14 @@ def d2l(d):
     return [[k, v] for k, v in d.items()]
 
 
+_AB1, _AB2 = Abandon(), Abandon()
+
+
 def impl(fname, args):
+    if fname == 'split_in_paragraphs':
+        _AB1.before(debcon.split_in_paragraphs, args[0])
+    if fname == 'get_paragraphs_data':
+        _AB2.before(debcon.get_paragraphs_data, args[0])
     if fname == 'parse_message':
         return call(msg_obs, *args)
     if fname == 'split_in_paragraphs':
